@@ -267,6 +267,8 @@ def values_cases(draw):
         "apply": draw(apply_specs()),
         # "loaded statistics": the accumulated statistics are saved and the transform is applied by a new object built from the file
         "via": draw(st.sampled_from([None, None, None, "stats.npy", "stats.npz", "stats.bin", "stats", "stats.bin", "foreign.npy", "foreign_half.npy"])),
+        "loads": draw(st.sampled_from([1, 1, 3])),
+        "mmap": draw(st.sampled_from([None, "r", "r+", "c"])),
     }
 
 
@@ -387,9 +389,26 @@ def check_values(case):
             else:
                 call("save(%s)" % via, s.save, path)
             kw = {} if via.endswith((".npy", ".npz")) else {"force_as": "file"}
-            s = call("Standardize(rfilename=%r%s)" % (via, ", force_as='file'" if kw else ""), Standardize, path, norm_var=norm_var, **kw)
+            if case.get("loads", 1) >= 3 and not via.startswith("foreign"):
+                # the same unchanged file is loaded three times (one object per speaker, all starting from global statistics):
+                # what the second object accumulates afterwards is its own business
+                first = call("Standardize(rfilename) (first load)", Standardize, path, norm_var=norm_var, **kw)
+                second = call("Standardize(rfilename) (second load)", Standardize, path, norm_var=norm_var, **kw)
+                call("accumulate into the second loaded object", second.accumulate, data.astype(np.float64) * 2.0 + 5.0, axis=-1)
+                del first
+            before_bytes = None
+            if via.startswith("foreign") and case.get("mmap"):
+                # documented pass-through of keyword arguments to the reader: the .npy file is memory-mapped while loading;
+                # what is accumulated afterwards must work and must stay in the object, not in the file
+                kw = dict(kw, mmap_mode=case["mmap"])
+                with open(path, "rb") as fh:
+                    before_bytes = fh.read()
+            s = call("Standardize(rfilename=%r%s)" % (via, "".join(", %s=%r" % kv for kv in sorted(kw.items()))), Standardize, path, norm_var=norm_var, **kw)
             if via.startswith("foreign") and h < data.shape[0]:
                 call("accumulate after loading", s.accumulate, data[h:], axis=-1)
+            if before_bytes is not None:
+                with open(path, "rb") as fh:
+                    require(fh.read() == before_bytes, "accumulate after Standardize(rfilename, mmap_mode={!r}) rewrote the statistics file", case["mmap"])
         require(bool(s.have_stats), "have_stats is false after loading statistics from {}", via)
     app = case["apply"]
     x, axis, atag = make_apply_input(spec, app)
@@ -538,7 +557,7 @@ def clauses(tier):
             "additive", check_additive,
             "two independent histories (order, partition, presentations) of one data set; non-trivial = the "
             "histories differ and a coefficient has a negative mean",
-            additive_cases, quick=800, thorough=24000,
+            additive_cases, quick=600, thorough=24000,
         ),
         Clause(
             "own_statistics", check_own,
@@ -548,6 +567,6 @@ def clauses(tier):
         Clause(
             "dim_mismatch", check_mismatch,
             "accumulate and apply with a wrong coefficient count must raise ValueError and leave the transform intact",
-            mismatch_cases, quick=400, thorough=12000,
+            mismatch_cases, quick=250, thorough=12000,
         ),
     ]
